@@ -5,4 +5,5 @@ CONSTANTS
   FAULTS = 0
 INVARIANTS NormalInOrder HeadersAtBoundaries NormalIsBasic DeferredOrdered DeferOnlyAtEnd DecoderOnlyForNormal FakeWasExtracted DeferWasExtracted FakeAtRightPlace FakeOnlyAtEndUnderEOF NeverFakeUnderPlain EofMeansAllDone
 PROPERTIES EofSticky
+VIEW MCView
 CHECK_DEADLOCK FALSE
